@@ -19,16 +19,17 @@ LEVEL = "model_checking"
 EXH = {
     "quick": {
         "C04": [([1, 2], 2, 6, 2, ["add", "compactall", "reload"], False),
-                ([1, 2], 2, 6, 1, ["addition", "empty", "compactall"], False)],
+                ([1, 2], 2, 6, 1, ["addition", "abort", "empty", "compactall"], False)],
         "C05": [([1, 2, 3], 1, 6, 3, ["add", "compactrange", "compactall"], False, [1], ["reopen", "clean"])],
         "C06": [([1, 2], 2, 6, 2, ["add", "compactall"], True)],
         "C08": [([1, 2, 3], 1, 5, 2, ["add", "compactall", "clean"], False)],
         "C09": [([1, 2], 2, 6, 2, ["add", "compactall", "reload"], False)],
         "C10": [([1, 2], 3, 4, 1, ["add", "compactrange"], False, [1], ["reload", "reopen"])],
-        "C16": [([1, 2], 2, 6, 2, ["add", "empty", "compactall", "clean"], False, [1], ["clean", "empty"])],
+        "C16": [([1, 2], 2, 6, 2, ["add", "empty", "compactall", "clean"], False, [1], ["clean", "empty"]),
+                ([1, 2], 1, 6, 2, ["add", "abort", "compactall", "clean"], False)],
     },
     "thorough": {
-        "C04": [([1, 2], 3, 7, 2, ["add", "addition", "empty", "compactall", "reload"], False),
+        "C04": [([1, 2], 3, 7, 2, ["add", "addition", "abort", "empty", "compactall", "reload"], False),
                 ([1, 2, 3], 1, 7, 3, ["add", "addition", "compactall", "compactrange", "reload", "reopen", "clean"], False)],
         "C05": [([1, 2], 3, 8, 3, ["add", "compactrange", "compactall", "reopen"], False),
                 ([1, 2, 3], 1, 7, 4, ["add", "compactrange", "reopen", "clean"], False)],
@@ -40,7 +41,7 @@ EXH = {
         "C10": [([1, 2], 3, 6, 2, ["add", "compactrange", "compactall", "reload"], False),
                 ([1, 2, 3], 2, 6, 1, ["add", "compactrange", "reload"], False)],
         "C16": [([1, 2], 3, 7, 2, ["add", "empty", "compactall", "clean", "reopen"], False),
-                ([1, 2, 3], 1, 6, 2, ["add", "empty", "addition", "compactall", "clean", "reopen"], False)],
+                ([1, 2, 3], 1, 6, 2, ["add", "empty", "addition", "abort", "compactall", "clean", "reopen"], False)],
     },
 }
 
@@ -55,7 +56,7 @@ COVER = {
         "C09": (([1, 2], 1, 5, 2, ["add", "compactall"], False), 500),
         "C10": [(([1, 2], 3, 4, 1, ["add", "compactrange"], False, [1], ["reload"], 1), None),
                 (([1, 2], 3, 6, 3, ["add", "compactrange"], False, [1], ["reload"], 1), 400)],
-        "C16": (([1, 2], 1, 6, 2, ["add", "empty", "compactall", "clean", "addition"], False), 500),
+        "C16": (([1, 2], 1, 6, 2, ["add", "empty", "compactall", "clean", "addition", "abort"], False), 500),
     },
     "thorough": {
         "C04": (([1, 2], 2, 6, 2, ["add", "compactall"], False), 25000),
@@ -65,7 +66,7 @@ COVER = {
         "C09": (([1, 2], 1, 5, 2, ["add", "compactall"], False), None),
         "C10": [(([1, 2], 3, 4, 1, ["add", "compactrange"], False, [1], ["reload", "reopen"], 3), None),
                 (([1, 2], 3, 6, 3, ["add", "compactrange"], False, [1], ["reload"], 2), None)],
-        "C16": (([1, 2], 1, 6, 2, ["add", "empty", "compactall", "clean", "addition"], False), None),
+        "C16": (([1, 2], 1, 6, 2, ["add", "empty", "compactall", "clean", "addition", "abort"], False), None),
     },
 }
 
@@ -74,9 +75,9 @@ VOL = {"quick": (150, 90, 250, 400), "thorough": (3000, 140, 6000, 100000)}
 
 # op mix of the random runs, per property
 WEIGHTS = {
-    "C08": [("add", 4), ("compactall", 5), ("compactrange", 2), ("clean", 2), ("addition", 1)],
+    "C08": [("add", 4), ("compactall", 5), ("compactrange", 2), ("clean", 2), ("addition", 1), ("abort", 1)],
     "C10": [("add", 4), ("compactall", 2), ("compactrange", 4), ("reload", 4), ("read", 1), ("closeopen", 1)],
-    "C16": [("add", 4), ("empty", 2), ("conflict", 3), ("overlap", 1), ("addition", 1), ("compactall", 3), ("compactrange", 2), ("clean", 3), ("closeopen", 2), ("autocompact", 1)],
+    "C16": [("add", 4), ("empty", 2), ("conflict", 3), ("overlap", 1), ("addition", 1), ("abort", 3), ("compactall", 3), ("compactrange", 2), ("clean", 3), ("closeopen", 2), ("autocompact", 1)],
     "C05": [("add", 4), ("addition", 1), ("overlap", 2), ("compactall", 2), ("compactrange", 5), ("closeopen", 2), ("clean", 2), ("reload", 1)],
 }
 
@@ -341,7 +342,7 @@ def preempt_runs(drv, sc, rng, n, pid, full):
     hold tables.list.lock after having held it (the merge window of a compaction), the points after a rename, and the first two.
     Returns (runs, size of the space)."""
     def calls(tg):
-        return [("add", lambda: tg.add()), ("addition", lambda: tg.addition()), ("compactall", lambda: {"op": "compactall"}),
+        return [("add", lambda: tg.add()), ("addition", lambda: tg.addition()), ("abort", lambda: tg.abort()), ("compactall", lambda: {"op": "compactall"}),
                 ("c01", lambda: {"op": "compactrange", "first": 0, "last": 1}), ("c12", lambda: {"op": "compactrange", "first": 1, "last": 2}),
                 ("c23", lambda: {"op": "compactrange", "first": 2, "last": 3}), ("reopen", lambda: {"op": "reopen"}),
                 ("clean", lambda: {"op": "clean"}), ("reload", lambda: {"op": "reload"}), ("autoadd", lambda: tg.add())]
@@ -401,7 +402,7 @@ def preempt_runs(drv, sc, rng, n, pid, full):
 def crash_scenarios():
     """call kinds x initial stacks for the crash enumeration; handle 1 runs the call, handle 2 continues afterwards"""
     kinds = [
-        ("add", [{"op": "add"}]), ("addition", [{"op": "addition"}]), ("compactall", [{"op": "compactall"}]),
+        ("add", [{"op": "add"}]), ("addition", [{"op": "addition"}]), ("abort", [{"op": "abort"}]), ("compactall", [{"op": "compactall"}]),
         ("compactrange01", [{"op": "compactrange", "first": 0, "last": 1}]), ("compactrange12", [{"op": "compactrange", "first": 1, "last": 2}]),
         ("clean", [{"op": "clean"}]), ("reopen", [{"op": "reopen"}]), ("autoadd", [{"op": "autoadd"}]),
         ("expiry", [{"op": "compactall", "expiry": {"Time": 0, "Min": 2, "Max": 0}}]), ("empty", [{"op": "empty"}]),
@@ -421,6 +422,8 @@ def crash_scenarios():
                     auto = True
                 elif c["op"] == "addition":
                     prog.append(tg.addition())
+                elif c["op"] == "abort":
+                    prog.append(tg.abort())
                 elif c["op"] == "empty":
                     prog.append(tg.empty())
                 else:
